@@ -59,7 +59,7 @@ theorem waitOp_ok_noError (σ : DbModel) (db : Database) (tx : Txn) (op : Operat
         · cases h
         · split at h
           · cases h; rfl
-          · split at h <;> cases h
+          · cases h
 
 theorem execOp_ok_noError (σ : DbModel) (db : Database) (tx : Txn) (op : Operation) (r : OpResult) (tx' : Txn)
     (step : List ((String × UUID) × ModelUpdate)) (h : execOp σ db tx op = .ok (r, tx', step)) : r.error = none := by
